@@ -600,6 +600,25 @@ class Verifier(Engine):
                 st.path = [f"split:{slabel}"]
             if c.generator:
                 st.env["$yielded"] = self.seq_empty(rty)  # type: ignore[arg-type]
+            if c.pure and c.decreases:
+                # induction hypothesis of a recursive pure function: its contract holds for all arguments of smaller measure
+                # (needed where the recursive calls sit inside a comprehension, i.e. are not individual call sites)
+                ist = State()
+                bvs = []
+                for p, ty in params:
+                    bv = z3.Const(f"ih.{p}", self.sort(ty))
+                    bvs.append(bv)
+                    ist.env[p] = V(bv, ty)
+                ireqs = [self.clause(t, ist) for t in c.requires.values()]
+                ires = self.pure_app(c, {p: ist.env[p] for p, _ in params}, rty)
+                ipost = ist.fork()
+                ipost.env["result"] = ires
+                ipost.old = ist.snapshot()
+                iens = [self.clause(t, ipost) for t in c.ensures.values()]
+                m_i = self.coerce(self.term(c.decreases, ist), INT).t
+                m_c = self.coerce(self.term(c.decreases, st), INT).t
+                if iens:
+                    st.pc.append(z3.ForAll(bvs, z3.Implies(z3.And(*ireqs, 0 <= m_i, m_i < m_c), z3.And(*iens)), patterns=[ires.t]))
             st.old = st.snapshot()
             outcomes = self.block(fd.body, st)
             for o in outcomes:
